@@ -42,6 +42,7 @@ package bbolt
 //@   ensures [nogrowth] sz <= old(flen) ==> flen == old(flen)
 //@   ensures [grown] err == nil && !db.NoGrowSync && !db.readOnly ==> flen >= sz
 //@   ensures [monotone] flen >= old(flen) || (err == nil && flen >= sz)
+//@   ensures [frame] dbframe(db) && db.datasz == old(db.datasz) && unsynced == old(unsynced) && nwrites == old(nwrites)
 
 //@ func mmap
 //@   returns (err)
@@ -57,8 +58,8 @@ package bbolt
 //@   ensures err == nil ==> db.datasz >= minsz
 //@   ensures [mapped] err == nil ==> db.data != nil && db.meta0 != nil && db.meta1 != nil && (metavalid(db.meta0) || metavalid(db.meta1)) && fresh(db.meta0) && fresh(db.meta1)
 //@   ensures [failed] err != nil ==> db.data == nil || (db.data == old(db.data) && db.meta0 == old(db.meta0) && db.meta1 == old(db.meta1))
-//@   ensures db.rwtx == old(db.rwtx) && db.pageSize == old(db.pageSize) && db.MaxSize == old(db.MaxSize) && db.AllocSize == old(db.AllocSize)
-//@   ensures db.rwtx != nil ==> db.rwtx.meta == old(db.rwtx.meta) && db.rwtx.meta.pgid == old(db.rwtx.meta.pgid)
+//@   ensures dbframe(db) && unsynced == old(unsynced) && nwrites == old(nwrites)
+//@   ensures db.rwtx != nil ==> db.rwtx.meta == old(db.rwtx.meta) && db.rwtx.meta.pgid == old(db.rwtx.meta.pgid) && db.rwtx.meta.txid == old(db.rwtx.meta.txid) && db.rwtx.meta.magic == old(db.rwtx.meta.magic) && db.rwtx.meta.version == old(db.rwtx.meta.version) && db.rwtx.db == old(db.rwtx.db) && db.rwtx.writable == old(db.rwtx.writable) && db.rwtx.managed == old(db.rwtx.managed) && db.rwtx.root.tx == old(db.rwtx.root.tx)
 //@   modifies db.dataref, db.data, db.datasz, db.meta0, db.meta1, all("node.key"), all("node.inodes"), all("Inode.key"), all("Inode.value"), allelems("byte")
 
 //@ func (*DB).allocate
@@ -73,7 +74,7 @@ package bbolt
 //@   ensures [errclean] err != nil ==> db.rwtx.meta.pgid == old(db.rwtx.meta.pgid)
 //@   ensures [mapfail] err != nil ==> db.data == nil || (db.data == old(db.data) && db.meta0 == old(db.meta0) && db.meta1 == old(db.meta1))
 //@   ensures [mapok] err == nil ==> (db.data == old(db.data) && db.meta0 == old(db.meta0) && db.meta1 == old(db.meta1)) || (db.data != nil && db.meta0 != nil && db.meta1 != nil && (metavalid(db.meta0) || metavalid(db.meta1)))
-//@   ensures [same] db.rwtx == old(db.rwtx) && db.rwtx.meta == old(db.rwtx.meta) && db.pageSize == old(db.pageSize) && db.freelist == old(db.freelist) && db.rwlock.held == old(db.rwlock.held) && db.MaxSize == old(db.MaxSize)
+//@   ensures [same] dbframe(db) && db.rwtx.meta == old(db.rwtx.meta) && db.rwtx.meta.txid == old(db.rwtx.meta.txid) && db.rwtx.meta.magic == old(db.rwtx.meta.magic) && db.rwtx.meta.version == old(db.rwtx.meta.version) && db.rwtx.db == old(db.rwtx.db) && db.rwtx.writable == old(db.rwtx.writable) && db.rwtx.managed == old(db.rwtx.managed) && db.rwtx.root.tx == old(db.rwtx.root.tx) && unsynced == old(unsynced) && nwrites == old(nwrites)
 //@   ensures [metasame] forall m *common.Meta :: allocated(m) && m != db.rwtx.meta ==> metavalid(m) == old(metavalid(m))
 //@   ensures [page] err == nil ==> p != nil && p.overflow == count - 1 && (p.id >= 2 || p.id == old(db.rwtx.meta.pgid))
 //@   ensures [fresh] err == nil && db.rwtx.meta.pgid != old(db.rwtx.meta.pgid) ==> p.id == old(db.rwtx.meta.pgid)
@@ -142,6 +143,10 @@ package bbolt
 
 // ---------------------------------------------------------------- transaction life cycle (C01 C03 C06 C08)
 
+// dbframe/txframe: what the commit path never changes (identity of the objects, configuration, writer lock state)
+//@ pure func dbframe(db *DB) bool = db.rwlock.held == old(db.rwlock.held) && db.metalock.held == old(db.metalock.held) && db.rwtx == old(db.rwtx) && db.pageSize == old(db.pageSize) && db.NoSync == old(db.NoSync) && db.NoFreelistSync == old(db.NoFreelistSync) && db.StrictMode == old(db.StrictMode) && db.freelist == old(db.freelist) && db.MaxSize == old(db.MaxSize) && db.AllocSize == old(db.AllocSize) && db.readOnly == old(db.readOnly)
+//@ pure func txframe(tx *Tx) bool = tx.db == old(tx.db) && tx.meta == old(tx.meta) && tx.writable == old(tx.writable) && tx.managed == old(tx.managed) && tx.root.tx == old(tx.root.tx) && tx.meta.txid == old(tx.meta.txid) && tx.meta.magic == old(tx.meta.magic) && tx.meta.version == old(tx.meta.version) && dbframe(tx.db)
+
 // dbmeta(db): the meta DB.meta() selects: the one with the higher txid if it is valid, else the other
 //@ pure func dbmeta(db *DB) *common.Meta = db.meta1.txid > db.meta0.txid ? (metavalid(db.meta1) ? db.meta1 : db.meta0) : (metavalid(db.meta0) ? db.meta0 : db.meta1)
 
@@ -187,15 +192,17 @@ package bbolt
 
 //@ func (*Bucket).rebalance
 //@   opaque
-//@   ensures b.tx.db == old(b.tx.db) && b.tx.meta == old(b.tx.meta) && b.tx.writable == old(b.tx.writable) && b.tx.managed == old(b.tx.managed)
-//@   ensures b.tx.db.rwlock.held == old(b.tx.db.rwlock.held) && unsynced == old(unsynced) && nwrites == old(nwrites)
+//@   ensures txframe(b.tx) && b.tx.meta.pgid == old(b.tx.meta.pgid) && unsynced == old(unsynced) && nwrites == old(nwrites)
+//@   ensures b.tx.db.data == old(b.tx.db.data) && b.tx.db.meta0 == old(b.tx.db.meta0) && b.tx.db.meta1 == old(b.tx.db.meta1) && b.tx.db.datasz == old(b.tx.db.datasz)
+//@   ensures forall m *common.Meta :: allocated(m) && m != b.tx.meta ==> metavalid(m) == old(metavalid(m))
 
 //@ func (*Bucket).spill
 //@   opaque
 //@   returns (err)
-//@   ensures b.tx.db == old(b.tx.db) && b.tx.meta == old(b.tx.meta) && b.tx.writable == old(b.tx.writable) && b.tx.managed == old(b.tx.managed)
-//@   ensures b.tx.db.rwlock.held == old(b.tx.db.rwlock.held) && unsynced == old(unsynced) && nwrites == old(nwrites)
-//@   ensures b.tx.meta.pgid >= old(b.tx.meta.pgid) && b.tx.meta.txid == old(b.tx.meta.txid)
+//@   ensures txframe(b.tx) && unsynced == old(unsynced) && nwrites == old(nwrites)
+//@   ensures b.tx.meta.pgid >= old(b.tx.meta.pgid) && b.tx.meta.pgid <= old(b.tx.meta.pgid) + 4294967296
+//@   ensures (b.tx.meta.pgid + 1) * b.tx.db.pageSize <= b.tx.db.datasz && b.tx.db.datasz >= 0
+//@   ensures b.tx.db.data == nil || (b.tx.db.meta0 != nil && b.tx.db.meta1 != nil && (metavalid(b.tx.db.meta0) || metavalid(b.tx.db.meta1)))
 //@   ensures b.tx.db.MaxSize > 0 && b.tx.meta.pgid != old(b.tx.meta.pgid) ==> (b.tx.meta.pgid + 1) * b.tx.db.pageSize <= b.tx.db.MaxSize
 
 //@ func (*Tx).rollback
@@ -239,14 +246,16 @@ package bbolt
 //@   ensures [metalock] !tx.db.metalock.held
 //@   ensures [unchanged] tx.meta.txid == old(tx.meta.txid) && tx.meta.pgid == old(tx.meta.pgid) && tx.meta.freelist == old(tx.meta.freelist) && tx.meta.root.root == old(tx.meta.root.root)
 //@   ensures [valid] metavalid(tx.meta)
+//@   ensures [frame] tx.db == old(tx.db) && tx.meta == old(tx.meta) && tx.writable == old(tx.writable) && tx.managed == old(tx.managed) && tx.root.tx == old(tx.root.tx) && tx.db.rwlock.held == old(tx.db.rwlock.held) && tx.db.rwtx == old(tx.db.rwtx) && tx.db.freelist == old(tx.db.freelist) && tx.db.pageSize == old(tx.db.pageSize) && tx.db.NoSync == old(tx.db.NoSync)
 
 //@ func (*Tx).commitFreelist
 //@   returns (err)
 //@   props C08 C07 C01
-//@   requires tx.db != nil && tx.writable && tx.meta != nil && tx.db.freelist != nil && tx.db.rwlock.held && tx.db.pageSize >= 512 && tx.db.pageSize <= 16777216 && tx.db.rwtx == tx
+//@   requires tx.db != nil && tx.writable && tx.meta != nil && tx.db.freelist != nil && tx.db.rwlock.held && tx.db.pageSize >= 512 && tx.db.pageSize <= 16777216 && tx.db.rwtx == tx && (tx.meta.pgid + 1) * tx.db.pageSize <= tx.db.datasz
 //@   requires (tx.meta.pgid + 4294967296) * tx.db.pageSize <= 2305843009213693952 && tx.db.AllocSize >= 0 && tx.db.AllocSize <= 2305843009213693952 && tx.db.datasz >= 0 && tx.db.MaxSize >= 0
 //@   requires tx.db.data != nil ==> tx.db.meta0 != nil && tx.db.meta1 != nil && (metavalid(tx.db.meta0) || metavalid(tx.db.meta1))
 //@   ensures [rolledback] err != nil ==> tx.db == nil && calls("(*Tx).rollback", tx) == old(calls("(*Tx).rollback", tx)) + 1
+//@   ensures [okframe] err == nil ==> txframe(tx) && tx.meta.pgid >= old(tx.meta.pgid) && (tx.meta.pgid + 1) * tx.db.pageSize <= tx.db.datasz && (tx.db.MaxSize > 0 && tx.meta.pgid != old(tx.meta.pgid) ==> (tx.meta.pgid + 1) * tx.db.pageSize <= tx.db.MaxSize)
 //@   ensures [ok] err == nil ==> tx.db == old(tx.db) && calls("(*Tx).rollback", tx) == old(calls("(*Tx).rollback", tx)) && calls("freelist.Interface.Write", tx.db.freelist) == old(calls("freelist.Interface.Write", tx.db.freelist)) + 1
 //@   ensures [disk] unsynced == old(unsynced) && nwrites == old(nwrites)
 
@@ -257,7 +266,7 @@ package bbolt
 //@   ensures [synced] err == nil && !tx.db.NoSync ==> unsynced == 0
 //@   ensures [nosyncskipped] err == nil && tx.db.NoSync ==> nsyncs == old(nsyncs)
 //@   ensures [syncedonce] err == nil && !tx.db.NoSync ==> nsyncs == old(nsyncs) + 1
-//@   ensures [same] tx.db == old(tx.db) && tx.meta == old(tx.meta) && tx.writable == old(tx.writable)
+//@   ensures [same] txframe(tx) && tx.meta.pgid == old(tx.meta.pgid) && tx.meta.freelist == old(tx.meta.freelist) && tx.meta.root.root == old(tx.meta.root.root)
 //@   skip tx.go:544 because UnsafeByteSlice views the page buffer (A-unsafe); chunk sizes are bounded by MaxAllocSize-1 by construction
 //@   skip tx.go:577 because UnsafeByteSlice views the page buffer (A-unsafe)
 
@@ -269,7 +278,7 @@ package bbolt
 //@   returns (err)
 //@   props C01 C03 C06 C07 C08 C18
 //@   requires !tx.managed
-//@   requires tx.db != nil && tx.writable ==> tx.db.rwlock.held && tx.db.rwtx == tx && tx.meta != nil && tx.db.freelist != nil && !tx.db.metalock.held
+//@   requires tx.db != nil && tx.writable ==> tx.db.rwlock.held && tx.db.rwtx == tx && tx.meta != nil && tx.db.freelist != nil && !tx.db.metalock.held && tx.root.tx == tx
 //@   requires tx.db != nil && tx.writable ==> tx.db.pageSize >= 512 && tx.db.pageSize <= 16777216 && tx.meta.magic == common.Magic && tx.meta.version == common.Version
 //@   requires tx.db != nil && tx.writable ==> (tx.meta.pgid + 8589934592) * tx.db.pageSize <= 2305843009213693952 && tx.db.AllocSize >= 0 && tx.db.AllocSize <= 2305843009213693952 && tx.db.datasz >= 0 && tx.db.MaxSize >= 0
 //@   requires tx.db != nil && tx.writable && tx.db.data != nil ==> tx.db.meta0 != nil && tx.db.meta1 != nil && (metavalid(tx.db.meta0) || metavalid(tx.db.meta1))
